@@ -142,7 +142,7 @@ def check_state(h, v, acc, tier):
             acc.validated += 1
         vs = AnsiStr(build(h))
         r = vs.clear_formatting()
-        if type(r) is not AnsiStr or r.base_str != text or any(model.alpha_codes(r._s)[1]):
+        if type(r) is not AnsiStr or r.base_str != text or any(model.alpha_codes(r)[1]):
             out.append(('clear', {'hist': h, 'op': ['clear_str']}, 'AnsiStr.clear_formatting wrong'))
         else:
             acc.validated += 1
@@ -150,7 +150,7 @@ def check_state(h, v, acc, tier):
             r = vs.remove_formatting(None, 0, 1)
             w = build(h)
             w.remove_formatting(None, 0, 1)
-            if type(r) is not AnsiStr or model.alpha_codes(r._s) != model.alpha_codes(w):
+            if type(r) is not AnsiStr or model.alpha_codes(r) != model.alpha_codes(w):
                 out.append(('remove-ansistr', {'hist': h, 'op': ['remove_str']}, 'AnsiStr.remove_formatting differs'))
             else:
                 acc.validated += 1
